@@ -88,7 +88,7 @@ ssize_t recv(int fd, void *buf, size_t len, int flags)
     g_recv_calls++;
     CHECK(fd == FD0, "C01: recv() on the connection's own descriptor");
     CHECK(buf == g_app_buf && len == g_app_len, "C01: one recv() with the caller's buffer and capacity");
-    CHECK(flags == MSG_TRUNC, "C01: recv with MSG_TRUNC (one whole record per call, its real length reported)");
+    CHECK((flags & MSG_TRUNC) != 0 && (flags & (MSG_PEEK | MSG_OOB | MSG_WAITALL)) == 0, "C01: recv with MSG_TRUNC (one whole record per call, its real length reported)");
     int mode = (int)nd_range(0, 2);
     if (mode == 0) { g_record_len = (size_t)nd_range(1, 65535); g_sys_rc = (int)g_record_len; return g_sys_rc; }   /* real record length, may exceed len */
     if (mode == 1) { g_sys_rc = 0; return 0; }
